@@ -51,14 +51,15 @@ type threadState struct {
 type probeState struct {
 	erp *interpreter.ECALRuntimeProvider
 
-	mu    sync.Mutex
-	seq   atomic.Uint64 // progress counter: every probe event and every thread completion
-	abort chan struct{} // closed when the case is given up; releases rendezvous waits
-	occ   map[string]*occupancy
-	thr   []*threadState
-	did   map[string]int
-	sigs  map[string]chan struct{}
-	fail  *hx.Failure // first violation seen by a probe
+	mu     sync.Mutex
+	seq    atomic.Uint64 // progress counter: every probe event and every thread completion
+	abort  chan struct{} // closed when the case is given up; releases rendezvous waits
+	occ    map[string]*occupancy
+	thr    []*threadState
+	did    map[string]int
+	sigs   map[string]chan struct{}
+	fail   *hx.Failure // first violation seen by a probe
+	failed atomic.Bool
 
 	// evidence
 	contended   int // want() while another thread was inside the name
@@ -86,6 +87,7 @@ func newProbeState(erp *interpreter.ECALRuntimeProvider, nthreads int) *probeSta
 func (st *probeState) violation(sig, format string, a ...interface{}) {
 	if st.fail == nil {
 		st.fail = hx.Failf(sig, format, a...)
+		st.failed.Store(true)
 	}
 }
 
